@@ -21,6 +21,16 @@ CHECKS = {
             'DESIGN.md 3/C19'),
 }
 
+CHECKS['C04'] = ('exploration',
+    'Hypothesis project-model generator -> real meson setup -> independent Ninja manifest parser (rules, unique producers, acyclicity, closed inputs, reachability); certain-collision projects must be rejected',
+    'Seeded Hypothesis project models (target graphs with all target kinds, odd names, subdirs, subproject, layout/default_library/unity) are configured by the real '
+    'meson and build.ninja is judged by an independent implementation of the Ninja manifest language: syntax, defined rules, single producer per path (explicit and '
+    'implicit outputs, canonicalised), acyclic, every input exists or is produced, every built-by-default target reachable from `all`, every target a test runs / '
+    'depends on / takes as argument reachable from meson-test-prereq (benchmark: meson-benchmark-prereq); models carrying a certain collision or reserved name must '
+    'fail to configure with an error. Thorough adds every configurable project of the repository test corpus. Sampled, not exhaustive.',
+    'Validity is judged by harness/refninja.py (no ninja binary in the sandbox), self-tested on the Ninja manual examples; Linux output naming assumed for reachability lookups.',
+    'DESIGN.md 3/C04')
+
 NOT_YET = 'no check is registered for this property in this revision (see DESIGN.md section 8 for status)'
 
 
